@@ -24,6 +24,8 @@ def search_geometry(job):
     data = os.path.dirname(docsnap.fixtures()[0])
     cases = [{"path": os.path.join(data, f), "query": q, "cycles": 2} for f in ("issue-69b.numbers", "test-extra-borders.numbers", "issue-14.numbers")
              for q in (False, True, "partial") if os.path.exists(os.path.join(data, f))]
+    cases += [{"set": ["resize"], "resize": os.path.join(data, f), "seed": 0, "query": False, "cycles": 1} for f in ("test-pivot.numbers", "test-9.numbers")
+              if os.path.exists(os.path.join(data, f))]
     for i, g in enumerate((["row_height", "borders"], ["col_width", "borders"], ["borders"], ["row_height", "col_width"])):
         for q in (False, True):
             cases.append({"set": g, "seed": i, "query": q, "cycles": 2})
